@@ -1,16 +1,33 @@
 #!/bin/bash
-# applies every seeded change under /verif/seeded/*/patch.diff to /repo, runs the quick check of its property,
-# reverts; prints one line per mutant. /repo must be clean.
+# Re-runs every seeded change under /verif/seeded/*/patch.diff against the quick check of its property and prints one
+# line per change (exit 1 = detected).
+#   default:            applies each patch to /repo (git apply), runs the check, reverts (git checkout -- .); /repo must be clean
+#   MUT_SCRATCH=1 [J=n]: uses scratch copies of /repo's working tree under /tmp/scratch instead (n in parallel), so that
+#                        /repo stays untouched while something else is reading it
 cd /verif
 export VERIF_NO_EVIDENCE=1   # evidence files describe runs against the unchanged /repo only
-[ -z "$(git -C /repo status --porcelain)" ] || { echo "/repo not clean"; exit 1; }
-for d in seeded/*/; do
-  n=$(basename $d)
+mkdir -p out
+one() {
+  d=$1; n=$(basename $d)
   p=$(python3 -c "import json;print(json.load(open('$d/meta.json'))['property'])")
-  git -C /repo apply /verif/$d/patch.diff 2>/dev/null || { echo "$n: patch does not apply"; continue; }
   s=$(date +%s)
-  timeout 2400 ./check $p quick > out/regress_$n.log 2>&1; rc=$?
+  if [ -n "${MUT_SCRATCH:-}" ]; then
+    T=/tmp/scratch/r_$n; mkdir -p /tmp/scratch; rsync -a --delete --exclude .git /repo/ $T/
+    (cd $T && patch -p1 -s < /verif/$d/patch.diff) || { echo "$n: patch does not apply"; rm -rf $T; return; }
+    VERIF_DIR=/verif VERIF_REPO=$T timeout 2400 ./bin/vengine -prop $p -tier quick > out/regress_$n.log 2>&1; rc=$?
+    rm -rf $T
+  else
+    git -C /repo apply /verif/$d/patch.diff 2>/dev/null || { echo "$n: patch does not apply"; return; }
+    timeout 2400 ./check $p quick > out/regress_$n.log 2>&1; rc=$?
+    git -C /repo checkout -- .
+  fi
   e=$(date +%s)
-  git -C /repo checkout -- .
   echo "$n property=$p exit=$rc wall=$((e-s))s $(grep -h VIOLATION out/regress_$n.log | head -1 | sed 's/.*obligation=\([^ ]*\).*/\1/')"
-done
+}
+export -f one
+if [ -n "${MUT_SCRATCH:-}" ]; then
+  ls -d seeded/*/ | xargs -P ${J:-4} -I{} bash -c 'one {}'
+else
+  [ -z "$(git -C /repo status --porcelain)" ] || { echo "/repo not clean"; exit 1; }
+  for d in seeded/*/; do one $d; done
+fi
